@@ -687,6 +687,10 @@ COMPUTED_WRAPPERS = [
     ('<start> ::= <cnt> ":" (<gstart> ","){{int(<cnt>)}} "."\n<cnt> ::= r"[0-4]"\n', "exact_group"),
     ('<start> ::= <cnt> ":" <gstart>{{1,int(<cnt>)}}\n<cnt> ::= "1" | "2" | "3"\n', "max"),
     ('<start> ::= <cnt> ":" <gstart>{{int(<cnt>),}} "!"\n<cnt> ::= "0" | "1" | "2"\n', "min"),
+    # iterations of DIFFERENT width (optional part in the body): a repair that cuts by children, not by whole
+    # iterations, leaves a partial iteration behind (seeded change C01-2)
+    ('<start> ::= <cnt> ":" ("[" <gstart> ("=" <cnt>)? "]"){{int(<cnt>)}} ";"\n<cnt> ::= r"[0-4]"\n', "exact_varwidth"),
+    ('<start> ::= <cnt> ":" (<gstart> ("," <gstart>)*){{int(<cnt>)}} "."\n<cnt> ::= r"[0-3]"\n', "exact_varwidth_star"),
 ]
 
 
@@ -698,10 +702,10 @@ def literal_for(value: Any) -> Optional[str]:
     return None
 
 
-def make_evolution_case(run: Run, rng, gi: int):
+def make_evolution_case(run: Run, rng, gi: int, force: Optional[str] = None):
     """(spec text, kind) — a generated grammar plus constraints that force the search operators to work"""
-    kind = ["equal_literal", "equal_two", "computed_rep", "len_gt", "generators", "startswith", "computed_rep",
-            "equal_literal"][gi % 8]
+    kind = force or ["equal_literal", "equal_two", "computed_rep", "len_gt", "generators", "startswith", "computed_rep",
+                     "equal_literal"][gi % 8]
     feats = specgen.feature_presets()["generators" if kind == "generators" else
                                        rng.choice(["default", "repetitions", "alternatives", "recursive", "regex", "tiny"])]
     feats = specgen.with_overrides(feats, mode="text", n_rules=(1, 4))
@@ -709,7 +713,7 @@ def make_evolution_case(run: Run, rng, gi: int):
     text = info.text
     nts = info.nonterminals
     if kind == "computed_rep":
-        wrapper, wk = rng.choice(COMPUTED_WRAPPERS)
+        wrapper, wk = COMPUTED_WRAPPERS[(gi // 2) % len(COMPUTED_WRAPPERS)] if force else rng.choice(COMPUTED_WRAPPERS)
         text = text.replace("<start>", "<gstart>")
         text = wrapper.replace("{{", "{").replace("}}", "}") + text
         kind += ":" + wk
@@ -784,11 +788,11 @@ def run_evolution(spec: str, seed: int, settings: dict, generations: int, want: 
     return grammar, constraints, list(seen.values()), solutions, rec, err
 
 
-def stage_evolution(ctx: Ctx, rng, n_runs: int, seconds: int) -> None:
+def stage_evolution(ctx: Ctx, rng, n_runs: int, seconds: int, force: Optional[str] = None) -> None:
     import fandango.language.grammar.nodes as nodes
     run = ctx.run
     for gi in range(n_runs):
-        case = make_evolution_case(run, rng, gi)
+        case = make_evolution_case(run, rng, gi, force)
         if case is None:
             run.count("evolution:spec_rejected")
             continue
@@ -1087,6 +1091,13 @@ def main(tier: str) -> int:
     run.coverage["correspondence_disagreements"] = len(ctx.corr_fail)
     run.coverage["disagreement_samples"] = [json.loads(json.dumps(c)[:4000]) if len(json.dumps(c)) < 4000
                                             else {"case": c["case"], "spec": c.get("spec")} for c in ctx.corr_fail[:5]]
+    if (not lean.ok or ctx.corr_fail) and not run.violations and not run.known_hits:
+        # failing-input search: a disagreement of the repair / replace operators with the model is looked for in what
+        # the search EMITS - evolution runs on computed-repetition specs (all wrappers in turn, incl. iterations of
+        # different width), every individual judged by the verified checker
+        stage_evolution(ctx, run.rng("search-after-disagreement"), 36 if quick else 120, 6 if quick else 10,
+                        force="computed_rep")
+        run.coverage["t_search_s"] = round(time.time() - t0, 1)
     if (not lean.ok or ctx.corr_fail) and not run.violations and not run.known_hits:
         what = []
         if not lean.ok:
